@@ -108,6 +108,14 @@ def run(ctx):
                                 viol(f"{window}/defining-integral", f"{window}.sigma(order={order}) on {sname} differs from an independent quadrature by {float(np.max(np.abs(s[ok_r] / ref - 1))):.3g}",
                                      {"window": window, "spectrum": sname, "order": order, "R": radii[ok_r].tolist()})
                     s0 = f.sigma(radii)
+                    # the same instance after its table was replaced (attribute assignment): sigma follows the current table
+                    f2_ = getattr(filters, window)(k.copy(), P.copy())
+                    s_before = f2_.sigma(radii, 1)
+                    f2_.power = 4.0 * P
+                    s_after = f2_.sigma(radii, 1)
+                    if not np.allclose(s_after, 2.0 * s_before, rtol=1e-12):
+                        viol(f"{window}/stale-table-after-assignment", f"{window}: after `filt.power = 4 P` on an instance already used, sigma(order=1) is {float(np.max(np.abs(s_after / (2 * s_before) - 1))):.3g} away from 2 x the previous value",
+                             {"window": window, "spectrum": sname})
                     ri_ = np.array([1, 3, 9])
                     if not np.allclose(f.sigma(ri_), f.sigma(ri_.astype(float)), rtol=1e-12):
                         viol(f"{window}/integer-radii", f"{window}.sigma differs between integer-typed and float radii {ri_.tolist()}", {"radii": ri_.tolist()})
